@@ -155,6 +155,8 @@ class RecheckCheck:
             "self-checked by the reference verifier (100% on intact content)",
             "content parent directory never carries the torrent's own name "
             "(it does contain siblings whose names extend the torrent name)",
+            "intact content is also given through a symbolic link named like "
+            "the torrent whose target directory has another name",
             "entry points: Checker(metafile, path).results() everywhere; the "
             "CLI `recheck` for intact and removal cases at real scale",
             "C16: v1 metafiles with padding entries are judged only where the "
@@ -177,8 +179,10 @@ class RecheckCheck:
         # S
         for B in ([2] if quick else [2, 4]):
             for P in ([B, 2 * B] if quick else [B, 2 * B, 4 * B]):
-                for sh in ["S1", "D1", "D2", "D2n", "D3", "D3s", "D4"]:
+                for sh in ["S1", "D1", "D2", "D2n", "D3", "D3s", "D3n", "D4"]:
                     n = world.nfiles(sh)
+                    if sh == "D3n" and (P != 2 * B or B != 2):
+                        continue
                     if n == 3:
                         top = P + 2 if quick else 2 * P + 1
                         if B == 4 or P > 2 * B:
@@ -210,8 +214,8 @@ class RecheckCheck:
         # R
         Ps = [32768] if quick else [16384, 32768, 65536]
         for P in Ps:
-            for sh in (["S1", "D1", "D2n", "D3"] if quick
-                       else ["S1", "D1", "D2n", "D3", "D3s", "D4"]):
+            for sh in (["S1", "D1", "D2n", "D3", "D3n"] if quick
+                       else ["S1", "D1", "D2n", "D3", "D3s", "D3n", "D4"]):
                 n = world.nfiles(sh)
                 if n <= 2:
                     alpha = e1.r_alphabet(P, "quick", n)
@@ -327,6 +331,26 @@ class RecheckCheck:
         with tf.scale(B):
             files, parent, root, metas = self.setup_world(w, seed, fams)
             single = w["shape"] == "S1"
+            # the same payload reached through a symbolic link that carries
+            # the torrent's name while the real directory is named otherwise
+            linkroot = None
+            if w["scale"] == "R" or world.nfiles(w["shape"]) <= 2:
+                store = os.path.join(os.path.dirname(parent), "store")
+                links = os.path.join(os.path.dirname(parent), "links")
+                os.makedirs(store, exist_ok=True)
+                os.makedirs(links, exist_ok=True)
+                real = os.path.join(store, "rel-2024.d")
+                if not os.path.lexists(real):
+                    if os.path.isdir(root):
+                        import shutil
+                        shutil.copytree(root, real)
+                    else:
+                        import shutil
+                        shutil.copyfile(root, real)
+                linkroot = os.path.join(links, world.ROOT_NAME)
+                if not os.path.lexists(linkroot):
+                    os.symlink(os.path.join("..", "store", "rel-2024.d"),
+                               linkroot)
             for dmg_set in dmg_sets:
                 changed = apply_damage(files, dmg_set)
                 if changed is None:
@@ -350,7 +374,11 @@ class RecheckCheck:
                     res.states += 1
                     for where, cpath in (("root", root), ("parent", parent),
                                          ("cli-root", root),
-                                         ("cli-parent", parent)):
+                                         ("cli-parent", parent),
+                                         ("link-root", linkroot)):
+                        if where == "link-root" and (dmg_set or not
+                                                     linkroot):
+                            continue
                         if where != "root" and dmg_set and \
                                 dmg_set[0][0] != "rm":
                             continue
